@@ -98,6 +98,9 @@ func main() {
 			} else {
 				doBytes(c, b, "replay", true)
 			}
+		case "bigchunk", "bigad":
+			fmt.Println("the large values are rebuilt by a normal run; running it")
+			runValues(c)
 		case "deep":
 			doDeep(c, r.Codec, true)
 		default:
